@@ -1,9 +1,62 @@
+import Drx.Lscr
 import Drx.Drv.Util
 namespace Drx.Drv.Lscr
-open Drx Drx.Drv
+open Drx Drx.Drv Drx.Lscr
 
-/-- commands of the `lscr` family (stub: nothing implemented yet) -/
+def textJ (r : R Str) : J := match r with | .ok t => J.str t | .error _ => J.s "error"
+
+/-- state of one simulated Python process: operand registers of the opcode singletons, current tree -/
+structure Proc where
+  regs : Regs := []
+  tree : Option Script := none
+
+/-- one operation of a history: `p<i>` parse script i, `l` generate Lingo, `j` generate JS on the current tree -/
+def histStep (scripts : Array (Bytes × Bytes)) (pr : Proc) (op : String) : Proc × J :=
+  if op = "l" then
+    match pr.tree with
+    | some t => let (r, t') := genLingo t; ({ pr with tree := some t' }, textJ r)
+    | none => (pr, J.s "error")
+  else if op = "j" then
+    match pr.tree with
+    | some t => let (r, t') := genJs t; ({ pr with tree := some t' }, textJ r)
+    | none => (pr, J.s "error")
+  else if op.startsWith "p" then
+    match (op.drop 1).toString.toNat? with
+    | some i =>
+      match scripts[i]? with
+      | some (lscr, lnam) =>
+        match parseScriptWith .macRoman pr.regs lscr lnam with
+        | .ok (s, regs) => ({ regs := regs, tree := some s }, J.s "ok")
+        | .error _ => ({ pr with tree := none }, J.s "error")   -- registers after a failed parse: see design.d/C12.md
+      | none => (pr, J.s "bad-op")
+    | none => (pr, J.s "bad-op")
+  else (pr, J.s "bad-op")
+
+def pairUp : List Bytes → Option (List (Bytes × Bytes))
+  | [] => some []
+  | [_] => none
+  | a :: b :: r => (pairUp r).map ((a, b) :: ·)
+
+/-- commands of the `lscr` family -/
 def run : List String → Option String
+  | ["lingo", l, n] => do
+    let l ← bytesOfHex l; let n ← bytesOfHex n
+    some (match parseScript l n with
+      | .ok s => (textJ (genLingo s).1).render
+      | .error _ => (J.s "error").render)
+  | ["js", l, n] => do
+    let l ← bytesOfHex l; let n ← bytesOfHex n
+    some (match parseScript l n with
+      | .ok s => (textJ (genJs s).1).render
+      | .error _ => (J.s "error").render)
+  | "hist" :: prog :: hexes => do
+    let bs ← hexes.mapM bytesOfHex
+    let ps ← pairUp bs
+    let ops := prog.splitOn ","
+    let (_, outs) := ops.foldl (fun (acc : Proc × List J) op =>
+      let (pr, o) := histStep ps.toArray acc.1 op
+      (pr, acc.2 ++ [o])) ({}, [])
+    some (J.arr outs).render
   | _ => none
 
 end Drx.Drv.Lscr
